@@ -20,6 +20,7 @@
     undotxn <tid> <oid> <undone>      → ok <rec> [calls] | err:Undo [calls]   (undo transaction of one
                                       object decided by `undoRecord` from the model's own history)
     lock                              → <t> | free
+    reopen                            → ok          (clean close + reopen; no transaction in progress)
     undo <tid> <oid> <ctid> <undone> <pre> <cur>  → ok <rec> [calls] | err:Undo [calls]
                                       (a whole undo transaction of one object through undoResolve)
   state grammar:  a<n>.  |  p<state><state>  |  r<fmt><fields>.
@@ -318,6 +319,8 @@ def srStep (d : DState) (toks : List String) : DState × String :=
     match oid.toNat? with
     | some oid => (d, "[" ++ joinWith "," (histLine (d.sys.hist ++ d.sys.base) oid) ++ "]")
     | none => (d, "bad-op")
+  | ["reopen"] =>     -- close (saves the index) and reopen the storage: the committed history is unchanged
+    (d, if d.sys.lock.isSome then "blocked" else "ok")
   | ["lock"] => (d, match d.sys.lock with | some t => toString t | none => "free")
   | ["undo", tid, oid, ctid, undone, pre, cur] =>
     -- one whole undo transaction for a single object whose undo needs resolution:
@@ -343,6 +346,10 @@ def srStep (d : DState) (toks : List String) : DState × String :=
     match tid.toNat?, oid.toNat?, undone.toNat? with
     | some tid, some oid, some undone =>
       if d.sys.lock.isSome then (d, "blocked")
+      -- the real undo undoes EVERY object of the transaction; this single-object op is only defined
+      -- for a transaction that wrote exactly this object (both sides skip it otherwise)
+      else if ((d.sys.hist ++ d.sys.base).filter (fun t => t.tid == undone)).any
+                (fun t => t.recs.isEmpty || t.recs.any (fun r => r.oid != oid)) then (d, "skipped")
       else
         let r := undoRecord (envOf d.classes) d.sys.kind d.sys.hist d.sys.base d.sys.cache oid undone
         let ct := (curK d.sys.kind d.sys.hist d.sys.base oid).getD 0
